@@ -367,6 +367,8 @@ class Interp:
         if m is not None and (symbolic_args or self.models.always(fn)):
             return (yield from m(self, args, kwargs))
         if isinstance(fn, types.FunctionType):
+            if is_repo_function(fn) and fn.__module__ + ":" + fn.__qualname__ in NATIVE_SAFE:
+                return self.native(fn, args, kwargs)
             if is_repo_function(fn) and not is_generated_dataclass_method(fn):
                 is_gen = bool(fn.__code__.co_flags & inspect.CO_GENERATOR)
                 if is_gen or symbolic_args or self.models.force_interpret(fn):
@@ -440,6 +442,9 @@ class Interp:
             if new is object.__new__:
                 obj = object.__new__(cls)
             elif is_repo_function(getattr(new, "__func__", new)):
+                f = getattr(new, "__func__", new)
+                if f.__module__ + ":" + f.__qualname__ in NATIVE_SAFE:
+                    return self.native(cls, args, kwargs)
                 raise Unsupported(f"custom __new__ of {cls.__name__} with symbolic arguments")
             else:
                 try:
@@ -1328,6 +1333,14 @@ class _Super:
         self.cls = cls
         self.obj = obj
 
+
+# repo functions that only rearrange their arguments (tuple structure) and never inspect the symbolic parts:
+# executed natively even when an argument carries symbols (a symbol reaching an inspecting operation raises
+# NativeUseOfSymbol -> the unit is undecided, never wrong)
+NATIVE_SAFE = {
+    "tpmstream.common.path:Path.__new__", "tpmstream.common.path:Path.__add__", "tpmstream.common.path:Path.__truediv__",
+    "tpmstream.common.path:Path.__getitem__", "tpmstream.common.path:PathNode.with_index",
+}
 
 _MISSING = object()
 _BUILTIN_SCALARS = (int, bool, str, bytes, float, type(None))
